@@ -11,6 +11,10 @@ TARGETS = {
     "C07-b": ["C07"], "C09-b": ["C09", "C01", "C14"], "C11-b": ["C11"], "C12-b": ["C12", "C11"], "C13-b": ["C13", "C02"],
     "C14-b": ["C14", "C15", "C11"], "C05-b": ["C05", "C03"], "C08-b": ["C08", "C07"], "C10-b": ["C10"],
     "C15-b": ["C15"], "C18-b": ["C18"], "C16-b": ["C16", "C19"], "C17-b": ["C17"], "C19-b": ["C19"],
+    "C01-c": ["C01", "C09"], "C02-c": ["C02", "C13", "C14"], "C04-c": ["C04", "C03"], "C05-c": ["C05", "C09", "C01"],
+    "C06-c": ["C06", "C09", "C01"], "C07-c": ["C07"], "C08-c": ["C08", "C09"], "C09-c": ["C09", "C08"],
+    "C12-c": ["C12", "C14", "C15"], "C13-c": ["C13"], "C14-c": ["C14", "C12"], "C15-c": ["C15", "C14"],
+    "C16-c": ["C16", "C19"], "C19-c": ["C19"], "C03-c": ["C03", "C04"],
 }
 only = sys.argv[1:]
 for sid in sorted(os.listdir("/verif/seeded")):
